@@ -11,7 +11,7 @@ deduplicate key, with thread-local holders turned into module state, or for a th
 alru cache, the same statement is refuted (counterexample theorems).
 
 NOT PROVABLE, SHOWN BY THE RUNS ONLY: that the Python functions behave like `gStep Keying.real`, and behaviour under
-real OS interleavings.  Three kinds of cases tie the model to the current tree:
+real OS interleavings.  Four kinds of cases tie the model to the current tree:
   inv   an `ast` inventory of asynq/*.py (module-/class-level mutable objects, threading.local, ContextVar, rebound
         globals incl. `globals()[..]`, run-time writes to class attributes, mutable defaults, closure caches, function
         attributes, attributes of held objects), compared (in Lean) with the model's list of thread-indexed components
@@ -22,6 +22,9 @@ real OS interleavings.  Three kinds of cases tie the model to the current tree:
         task, is inside `with V.override(..)` of a scoped value both use ...): every observation is compared with the
         model run under the same schedule (CORR) and - up to the thread's first use of a shared-by-design object - with
         the same thread running alone (SPEC).  The fixed write-in-A/observe-in-B probes are of this kind;
+  life  hist cases whose threads live one after the other, each created on the recycled OS thread ident of its joined
+        predecessor, which left an un-awaited deduplicated task behind (a deduplication scope must belong to the thread,
+        not to its ident);
   prog  K (2..16) free-running threads, sys.setswitchinterval(1e-6), repeated runs, each interpreting a generated asynq
         program (DebugBatchItem / sync(), @deduplicate functions shared by all threads with equal keys, AsyncContext,
         nested synchronous calls, COLLECT_PERF_STATS, get_active_task()): the per-thread trace (results, batch
@@ -64,7 +67,11 @@ RULE = ("inv: one AST inventory of asynq/*.py per run + the list of probed carri
         "the alru_cache function that all threads of the run share) under a generated schedule (fine / bursty / round-robin; "
         "30% with identical histories on all threads), plus a FIXED list of write-in-A/observe-in-B probes: one per carrier "
         "of the model's component list and one for the shared-by-design objects, each with both COLLECT_PERF_STATS settings "
-        "(12); quick 400 / thorough 6000. prog: 2-16 free-running threads started together (switch interval 1e-6; 3 "
+        "(14, incl. the thread-lifetime probe); quick 400 / thorough 6000. life: lock-step histories whose threads live ONE AFTER "
+        "THE OTHER - each is created after its predecessor was joined, on the predecessor's recycled OS thread ident "
+        "(candidate threads with another ident are parked, up to 200 tries; feature thread-ident-recycled counts the cases "
+        "where every successor got it), every thread leaves an un-awaited deduplicated task and every later thread asks "
+        "for the same function and key; quick 40 / thorough 400. prog: 2-16 free-running threads started together (switch interval 1e-6; 3 "
         "repetitions quick / 5 thorough) interpreting generated asynq programs that share deduplicated functions, keys and "
         "batch names, 30% with threads serving asynq functions through asyncio.run(fn.asyncio()); quick 160 + one per thread "
         "count 2..16 / thorough 700 + 15. non-trivial = a hist case with >= 2 threads, >= 8 steps and at least one thread "
@@ -244,6 +251,25 @@ def gen_hist(rng, k=None, n=None):
             "order": _order(rng, threads, rng.choice(["fine", "fine", "burst", "rr"]))}
 
 
+def gen_life(rng, k=None):
+    """thread LIFETIMES: the threads of the run live one after the other - thread t+1 is created after thread t has
+    finished and been joined, on the OS thread ident that thread t gave back (see `_run_successors`).  Every thread
+    leaves an un-awaited deduplicated task behind and every later thread asks for the same (function, key): a
+    deduplication scope that belongs to a thread IDENT instead of a thread hands the dead thread's task to the later one"""
+    k = k or rng.choice([2, 2, 2, 3])
+    f, key = rng.randrange(2), rng.randrange(3)
+    threads = []
+    for t in range(k):
+        hops = _gen_hops(rng, rng.choice([2, 4, 8]))
+        first = [["dedupCall", f, key]] if t > 0 else []
+        if t > 0 and rng.random() < 0.5:
+            first.append(["taskEnter", f, key])
+            first.append(["taskLeave"])
+        threads.append(first + hops + [["dedupCall", f, key]])
+    return {"kind": "hist", "perf": rng.randrange(2), "threads": threads, "life": 1,
+            "order": [t for t, hops in enumerate(threads) for _ in hops]}
+
+
 def _probe(writer, observer, perf, comp):
     threads = [writer, [observer[i % len(observer)] for i in range(len(writer))]]
     return {"kind": "hist", "perf": perf, "threads": threads, "order": _order(None, threads, "rr"), "probe": 1,
@@ -281,6 +307,13 @@ def probes():
                            ["lruCall", 1], ["taskEnter"], ["svEnter", 3], ["mkItem", 1], ["svExit"], ["lruCall", 2], ["taskLeave"],
                            ["profFlush"]],
                           [["mkItem", 1], ["svGet"], ["lruCall", 1], ["snap"], ["profFlush"]], perf, None))
+        # thread lifetimes: A leaves an in-flight deduplicated task and ends; B, created afterwards on A's thread ident,
+        # asks for the same function and key, runs it, asks again
+        res.append({"kind": "hist", "perf": perf, "life": 1, "probe": 1, "comp": ["tools", "DeduplicateDecorator.tasks"],
+                    "threads": [[["dedupCall", 0, 1], ["mkItem", 1], ["profIncr"]],
+                                [["dedupCall", 0, 1], ["getActive"], ["taskEnter", 0, 1], ["taskLeave"], ["dedupCall", 0, 1],
+                                 ["mkItem", 1], ["profIncr"]]],
+                    "order": [0] * 3 + [1] * 7})
     return res
 
 
@@ -363,6 +396,7 @@ def plan(tier, seed):
     cases.append({"kind": "inv"})
     cases += probes()
     cases += [gen_hist(rng) for _ in range(400 if quick else 6000)]
+    cases += [gen_life(rng) for _ in range(40 if quick else 400)]
     cases += [gen_prog(rng, reps=3 if quick else 5) for _ in range(160 if quick else 700)]
     # every thread count once more with identical programs (all keys and names collide)
     for k in range(2, 17):
@@ -451,6 +485,8 @@ def neighbours(case, rng):
         yield c
     for _ in range(16):
         yield gen_hist(rng, k=rng.choice([2, 3]), n=rng.choice([10, 24]))
+    for _ in range(8):
+        yield gen_life(rng)
     for _ in range(16):
         c = gen_prog(rng, k=rng.choice([2, 4, 8]), reps=3)
         if rng.random() < 0.7:
@@ -1470,6 +1506,61 @@ def _run_threads(e, recs, fns, label):
         raise (ct() if ct is not None else Hang("a thread never finished"))
 
 
+def _run_successors(e, recs, fns, label):
+    """thread lifetimes: the threads run ONE AFTER THE OTHER; thread t+1 is created only after thread t has finished and
+    been joined, and it is created on the OS thread ident that thread t gave back: CPython hands the ident (the stack) of
+    a finished thread to a later one a moment after join() returns, so candidate threads are created until one has that
+    ident; the candidates with another ident have done nothing, are never logged, and stay parked (keeping their idents
+    occupied) until the end of the run.  Returns how many successors really got their predecessor's ident."""
+    import time
+    threading = e.threading
+    release = threading.Event()
+    parked = []
+    recycled = 0
+    prev = None
+    try:
+        for rec, fn in zip(recs, fns):
+            chosen = None
+            tries = 0
+            while True:
+                box = {"run": False, "go": threading.Event()}
+
+                def main(box=box, rec=rec, fn=fn):
+                    box["go"].wait()
+                    if box["run"]:
+                        _thread_main(e, rec, fn)
+                    else:
+                        release.wait()
+
+                th = threading.Thread(target=main, name="c16-%s-%d" % (label, rec.t), daemon=True)
+                th.start()
+                if prev is None or th.ident == prev or tries >= 200:
+                    chosen = (th, box)
+                    break
+                box["go"].set()           # parks on `release`
+                parked.append(th)
+                tries += 1
+                time.sleep(0.0002 * min(tries, 10))
+            th, box = chosen
+            if prev is not None and th.ident == prev:
+                recycled += 1
+            prev = th.ident
+            box["run"] = True
+            box["go"].set()
+            deadline = time.time() + 12
+            while th.is_alive() and time.time() < deadline:
+                th.join(0.2)
+            if th.is_alive():
+                import __main__
+                ct = getattr(__main__, "CaseTimeout", None)
+                raise (ct() if ct is not None else Hang("a thread never finished"))
+    finally:
+        release.set()
+        for th in parked:
+            th.join(1)
+    return recycled
+
+
 def _collapse(node):
     """tie-prone program: everything on one batch name"""
     k = node[0]
@@ -1556,7 +1647,8 @@ def run_case(case):
             sys.setswitchinterval(1e-6)
         for r in range(reps):
             sink = []
-            turns = Turns(case["order"]) if kind == "hist" else None
+            life = kind == "hist" and bool(case.get("life"))
+            turns = Turns(case["order"]) if kind == "hist" and not life else None
             world = World(e)
             recs = [Recorder(e, t, sink, case, world, hops=case["threads"][t] if kind == "hist" else None, turns=turns)
                     for t in range(k)]
@@ -1564,7 +1656,12 @@ def run_case(case):
                 barrier = e.threading.Barrier(k)
                 for rec in recs:
                     rec.barrier = barrier
-            _run_threads(e, recs, [fn_for(t) for t in range(k)], "c%d-%d" % (cid, r))
+            if life:
+                n = _run_successors(e, recs, [fn_for(t) for t in range(k)], "c%d-%d" % (cid, r))
+                feats.append("thread-lifetimes")
+                feats.append("thread-ident-recycled" if n == k - 1 else "thread-ident-not-recycled")
+            else:
+                _run_threads(e, recs, [fn_for(t) for t in range(k)], "c%d-%d" % (cid, r))
             for rec in recs:
                 note(rec)
             for (t, op, obs) in sink:
